@@ -358,6 +358,8 @@ func runC16(p *core.Program, r *core.Report) {
 	r.Rule("C16.zip-complete", "the gzip stream handed back by DoZip is complete: the compressor's Close() has run before its buffer is read", 1)
 	gzipClosedBeforeRead(p, r, "C16.zip-complete", []string{"util/compressutil"})
 	noSilentTruncation(p, r, "C16.zip-complete", []string{"util/compressutil"})
+	r.Rule("C16.stateless", "what a record or a batch encodes to depends on that record or batch only: no function of lang/pack writes package-level state (a cache of encoded pieces filled while writing makes a later payload carry an earlier record's bytes)", 1)
+	statelessRule(p, r, "C16.stateless", []string{"lang/pack"})
 	r.Rule("C16.zip-fresh", "the compressed bytes DoZip hands back are the caller's own: they are not the backing array of a buffer that is reused by the next compression (pooled, package-level), so a pack already handed to the client is not rewritten", 1)
 	freshBytesResult(p, r, "C16.zip-fresh", []string{"util/compressutil"})
 	c16Defaults(p, r)
